@@ -86,8 +86,9 @@ def _table_record(t):
     for g in t.children:
         rows = []
         for r in g.children:
-            rows.append([[_attr_int(c.element, 'colspan', 1) if c.element is not None and c.element_tag in ('td', 'th') and not _anon(c) else 1,
-                          _attr_int(c.element, 'rowspan', 0) if c.element is not None and c.element_tag in ('td', 'th') and not _anon(c) else 1,
+            # TableCellBox.__init__ reads the attributes of box.element, whatever the tag (an anonymous cell
+            # shares the element of the box it was created from)
+            rows.append([[_attr_int(c.element, 'colspan', 1), _attr_int(c.element, 'rowspan', 0),
                           c.grid_x, c.colspan, c.rowspan] for c in r.children])
         groups.append(rows)
         kinds.append([g.style['display'][0], bool(g.is_header), bool(g.is_footer)])
@@ -102,13 +103,188 @@ def _table_record(t):
                 ncols=sum(len(c[1]) for c in cols))
 
 
-def _anon(cell):
-    # an anonymous cell shares its parent's element: its own tag is not td/th, or it wraps improper children
-    return cell.element is None or cell.element.tag not in ('td', 'th')
-
-
 def table_slots(case):
     """case: dict(html) -> list of table records of the box tree right after build_formatting_structure"""
     from tests.testing_utils import parse_all
     root = parse_all(case['html'])
     return [_table_record(t) for t in _tables_of(root)]
+
+
+# ------------------------------------------------------------------ full documents: box tree, text, tables
+
+KINDS = ['BlockBox', 'InlineBox', 'InlineBlockBox', 'TableBox', 'InlineTableBox', 'FlexBox', 'InlineFlexBox', 'GridBox',
+         'InlineGridBox', 'TableRowBox', 'TableRowGroupBox', 'TableColumnBox', 'TableColumnGroupBox', 'TableCellBox',
+         'TableCaptionBox', 'LineBox', 'TextBox', 'BlockReplacedBox', 'InlineReplacedBox', 'PageBox', 'MarginBox']
+
+
+def _install_hook():
+    """remember the text a TextBox had before its first process_whitespace() (harness-side, /repo untouched)"""
+    from weasyprint.formatting_structure import build, boxes
+    if getattr(build, '_c08_hooked', False):
+        return
+    orig = build.process_whitespace
+
+    def process_whitespace(box, following_collapsible_space=False):
+        if isinstance(box, boxes.TextBox) and '_c08_orig' not in box.__dict__:
+            box._c08_orig = box.text
+        return orig(box, following_collapsible_space)
+    build.process_whitespace = process_whitespace
+    build._c08_hooked = True
+
+
+def _unwrap(b):
+    return getattr(b, '_box', b) if type(b).__name__ == 'AbsolutePlaceholder' else b
+
+
+def _kind(b):
+    n = type(b).__name__
+    return n if n in KINDS else 'Other:' + n
+
+
+def _tree(b):
+    b = _unwrap(b)
+    from weasyprint.formatting_structure import boxes
+    kids = [] if isinstance(b, boxes.TextBox) else [_tree(c) for c in (getattr(b, 'children', ()) or ())]
+    return [_kind(b), bool(b.is_in_normal_flow()) if hasattr(b, 'style') and b.style is not None else True,
+            bool(getattr(b, 'is_table_wrapper', False)),
+            isinstance(b, boxes.TextBox) and not b.text, kids]
+
+
+def _is_anon(b):
+    return type(b.style).__name__ == 'AnonymousStyle'
+
+
+def _words_of(b, out):
+    from weasyprint.formatting_structure import boxes
+    b = _unwrap(b)
+    if isinstance(b, boxes.TextBox):
+        if not b.element_tag.endswith('::marker'):
+            out.extend(b.text.split())
+        return
+    if getattr(b, 'element_tag', '').endswith('::marker'):
+        return
+    for c in (getattr(b, 'children', ()) or ()):
+        _words_of(c, out)
+
+
+def _ifc_items(b, items):
+    """flatten the inline content of a LineBox / InlineBox: text items, 'a' for atomic inline-level boxes;
+    out-of-flow boxes are transparent"""
+    from weasyprint.formatting_structure import boxes
+    for c in b.children:
+        c = _unwrap(c)
+        if isinstance(c, boxes.TextBox):
+            items.append(['t', c.__dict__.get('_c08_orig'), c.style['white_space'], c.style['text_transform'],
+                          c.text, c.element_tag, c.style['hyphens']])
+        elif isinstance(c, boxes.InlineBox):
+            if c.element_tag.endswith('::marker'):
+                items.append(['a'])
+            else:
+                _ifc_items(c, items)
+        elif not c.is_in_normal_flow():
+            continue
+        else:
+            items.append(['a'])
+
+
+def _host_in_flow(chain):
+    """the element box whose children the inline content was when element_to_box processed it: nearest
+    non-anonymous ancestor that is not an inline box"""
+    from weasyprint.formatting_structure import boxes
+    for b in reversed(chain):
+        if not _is_anon(b) and not isinstance(b, (boxes.InlineBox, boxes.LineBox)):
+            return bool(b.is_in_normal_flow()), b.element_tag
+    return True, None
+
+
+def _collect(b, chain, ifcs, tables, post):
+    from weasyprint.formatting_structure import boxes
+    b = _unwrap(b)
+    if isinstance(b, boxes.LineBox):
+        items = []
+        _ifc_items(b, items)
+        flow, tag = _host_in_flow(chain)
+        ifcs.append(dict(items=items, host_in_flow=flow, host=tag, block=id(chain[-1]) if chain else 0))
+    if isinstance(b, boxes.TableBox):
+        tables.append(_table_record(b) if not post else None)
+    if not isinstance(b, boxes.TextBox):
+        for c in (getattr(b, 'children', ()) or ()):
+            _collect(c, chain + [b], ifcs, tables, post)
+
+
+def _colgroups(root):
+    return [[_tree(g) for g in t.column_groups] for t in _tables_of(root)]
+
+
+def build_and_render(case):
+    """case: dict(html, render=bool).  Returns dict(pre=..., post=... | crash info)."""
+    _install_hook()
+    from tests.testing_utils import _parse_base, render_pages
+    from weasyprint.formatting_structure import build
+    out = {}
+    root = build.build_formatting_structure(*_parse_base(case['html']))
+    ifcs, tables, words = [], [], []
+    _collect(root, [], ifcs, tables, False)
+    _words_of(root, words)
+    out['pre'] = dict(tree=_tree(root), ifcs=ifcs, tables=tables, words=words, colgroups=_colgroups(root))
+    if case.get('render', True):
+        import traceback, os
+        try:
+            pages = render_pages(case['html'])
+        except Exception as exc:   # noqa  (reported as a crash with its site by the harness)
+            tb = traceback.extract_tb(exc.__traceback__)
+            site = None
+            for fr in reversed(tb):
+                if '/weasyprint/' in fr.filename:
+                    site = [type(exc).__name__, fr.filename.split('/weasyprint/')[-1], fr.name]
+                    break
+            out['post_crash'] = dict(type=type(exc).__name__, msg=str(exc)[:200], site=site,
+                                     tb=''.join(traceback.format_exception(type(exc), exc, exc.__traceback__))[-1200:])
+            return out
+        pifcs, ptables, pwords = [], [], []
+        for p in pages:
+            _collect(p, [], pifcs, ptables, True)
+            _words_of(p, pwords)
+        # text of each block container that holds lines, lines in order
+        blocks, cur = [], None
+        for i in pifcs:
+            txt = ''.join(it[4] if it[0] == 't' else '￼' for it in i['items'])
+            if cur is not None and cur[0] == i['block']:
+                cur[1].append(txt)
+            else:
+                cur = [i['block'], [txt]]
+                blocks.append(cur)
+        out['post'] = dict(trees=[_tree(p) for p in pages], words=pwords, npages=len(pages),
+                           blocks=[b[1] for b in blocks])
+    return out
+
+
+# ------------------------------------------------------------------ display / float / position -> box class
+
+def display_box(case):
+    """case: dict(display, float, position, root) -> dict(display=computed tuple, float=computed, cls=class name|None)"""
+    from tests.testing_utils import _parse_base
+    from weasyprint.formatting_structure import build, boxes
+    decl = 'display:%s;float:%s;position:%s' % (case['display'], case['float'], case['position'])
+    if case['root']:
+        html = '<style>html{%s}</style><body>x</body>' % decl
+    else:
+        html = '<body><div id="t" style="%s">x</div></body>' % decl
+    base = _parse_base(html)
+    root_el, style_for = base[0], base[1]
+    target = root_el if case['root'] else next(e for e in root_el.iter() if e.get('id') == 't')
+    style = style_for(target)
+    disp, flt = tuple(style['display']), style['float']
+    if disp == ('none',):
+        return dict(display=list(disp), float=flt, cls=None)
+    root = build.build_formatting_structure(*base)
+    found = []
+
+    def walk(b):
+        if getattr(b, 'element', None) is target and not _is_anon(b) and not isinstance(b, boxes.LineBox):
+            found.append(b)
+        for c in (b.all_children() if hasattr(b, 'all_children') else ()):
+            if not isinstance(c, boxes.TextBox):
+                walk(c)
+    walk(root)
+    return dict(display=list(disp), float=flt, cls=type(found[0]).__name__ if found else None, n=len(found))
